@@ -77,6 +77,32 @@ def subterms(t):
                                     yield from subterms(z)
 
 
+def reads_place(t, place):
+    """`place` occurs in t outside the arguments of any call (i.e. as a not-yet-evaluated read)."""
+    if t == place:
+        return True
+    if not isinstance(t, tuple) or not t:
+        return False
+    k = t[0]
+    if k in ('call', 'closure', 'macro', 'lit', 'path', 'ctl', 'var'):
+        return False
+    if k == 'field':
+        return reads_place(t[1], place)
+    if k == 'struct':
+        return any(reads_place(v, place) for n, v in t[2]) or (t[3] is not None and reads_place(t[3], place))
+    if k == 'tup':
+        return any(reads_place(v, place) for v in t[1])
+    if k == 'bin':
+        return reads_place(t[2], place) or reads_place(t[3], place)
+    if k in ('un',):
+        return reads_place(t[2], place)
+    if k in ('cast', 'try'):
+        return reads_place(t[1], place)
+    if k == 'index':
+        return reads_place(t[1], place) or reads_place(t[2], place)
+    return False
+
+
 def struct_fields(t):
     assert t[0] == 'struct'
     return dict(t[2])
@@ -121,6 +147,7 @@ class Evaluator(object):
         self.inline_filter = inline_filter
         self.events = []
         self.tyenv = {}
+        self.names = {}
 
     # ------------------------------------------------------------------ events
     def emit(self, kind, term, node, guards, fn, chain, **kw):
@@ -146,6 +173,7 @@ class Evaluator(object):
     def bind_pat(self, pat, val, env):
         k = pat.get('k')
         if k == 'Bind':
+            self.names[pat['id']] = pat['name']
             env[pat['id']] = val if val is not None else ('var', pat['name'], pat['id'])
             if pat.get('sub'):
                 self.bind_pat(pat['sub'], val, env)
@@ -182,6 +210,17 @@ class Evaluator(object):
         elif k == 'POr':
             for sp in pat['pats']:
                 self.bind_pat(sp, val, env)
+
+    def freeze_readers(self, env, place, node=None, guards=(), fn=None, chain=()):
+        """A place was overwritten: locals bound to a term that still *reads* it (outside any call
+        result) denote the old value; make them opaque so the new value is not substituted."""
+        if place is None or place[0] not in ('field', 'var'):
+            return
+        for lid, t in list(env.items()):
+            if t is not None and reads_place(t, place):
+                nm = self.names.get(lid, 'local%s' % lid)
+                self.emit('snapshot', t, node, guards, fn, chain, lhs=('var', nm, lid))
+                env[lid] = ('var', nm, lid)
 
     def eval_block(self, node, env, guards, fn, chain):
         guards = list(guards)
@@ -343,6 +382,7 @@ class Evaluator(object):
         if k == 'Assign':
             r = self.eval(node['r'], env, guards, fn, chain)
             l = self.eval(node['l'], env, guards, fn, chain)
+            self.freeze_readers(env, l, node, guards, fn, chain)
             self.emit('assign', r, node, guards, fn, chain, lhs=l)
             if node['l'].get('k') == 'Local':
                 env[node['l']['id']] = None  # reassigned local: no longer substitutable
@@ -350,6 +390,7 @@ class Evaluator(object):
         if k == 'AssignOp':
             r = self.eval(node['r'], env, guards, fn, chain)
             l = self.eval(node['l'], env, guards, fn, chain)
+            self.freeze_readers(env, l, node, guards, fn, chain)
             self.emit('assignop', ('bin', node['op'].rstrip('='), l, r), node, guards, fn, chain, lhs=l, extra=node['op'])
             if node['l'].get('k') == 'Local':
                 env[node['l']['id']] = None
@@ -445,6 +486,13 @@ class Evaluator(object):
                 t = ('call', f[1], args, ())
                 self.emit('call', t, node, guards, fn, chain, callee=f[1], args=args)
                 return t
+            if f[0] == 'closure' and len(f[2]) == len(args):
+                # beta-reduce a call of a locally defined closure
+                body = f[3]
+                for (nm, pid), a in zip(f[2], args):
+                    body = replace(body, ('var', nm, pid), a)
+                self.emit('callclosure', body, node, guards, fn, chain, callee=f[1], args=args, extra=f)
+                return body
             t = ('call', 'value:' + show(f), args, ())
             self.emit('callvalue', t, node, guards, fn, chain, callee=show(f), args=args, extra=f)
             return t
